@@ -11,6 +11,7 @@ import Mathlib.Tactic.Ring
 import AITB.Model.VE
 import AITB.Model.VETable
 import AITB.Model.GVE
+import AITB.Gen.C13Facts
 import AITB.Props.C14
 
 namespace AITB.VE
@@ -667,6 +668,15 @@ sums of one entry per factor, and the closing prune keeps exactly the vectors no
 theorem move_absent_entry_counterexample :
     moveValues [2,2] [⟨[0],[0],[-1,-1]⟩, ⟨[0,1],[0,1],[-2,-3]⟩] = [[-3,-4]] ∧
     moveSpec [2,2] 2 [⟨[0],[0],[-1,-1]⟩, ⟨[0,1],[0,1],[-2,-3]⟩] = [[0,0]] := by decide +kernel
+
+/-- the repaired variant of the same table-level model (`keep = true`, fixes/C13-2) returns the Pareto set on the witness -/
+theorem move_repaired_on_witness :
+    moveValuesWith true 2 [2,2] [⟨[0],[0],[-1,-1]⟩, ⟨[0,1],[0,1],[-2,-3]⟩] = [[0,0]] := by decide +kernel
+
+/-- translator facts the model relies on, re-checked against the CURRENT source on every run:
+    VE's `endCrossSum` is strict (first maximum wins, as `bestOver`/`argmaxTo` are), and a rule found by
+    `lower_bound` is used only on index equality (as `lookup` does) -/
+theorem gen_facts_hold : AITB.Gen.veStrictMax = true ∧ AITB.Gen.gveLookupTestsEquality = true := by decide
 
 /-- on full tables the same model gives the Pareto set (a test, by evaluation): two agents, one factor -/
 example : moveValues [2,2] [⟨[0,1],[0,0],[1,0]⟩, ⟨[0,1],[1,0],[0,1]⟩, ⟨[0,1],[0,1],[-1,-1]⟩, ⟨[0,1],[1,1],[1/2,1/2]⟩]
